@@ -205,6 +205,22 @@ CLAIMED = {
         note="Trusted: the spelling tables in harness/drivers/c07.py. Chains of up to 3 components (all 1-2 component "
              "writings, a sample of the 3-component ones in the quick tier).",
         design_ref="§5.5, §6 C07"),
+    "C08": dict(
+        technique="TLA+ model of written Twp/Rge forms (template class, numbers, present/absent directions), defaults and "
+                  "their source, enumerated by TLC; each form rendered and parsed; TLC trace validation of the preprocessed "
+                  "text, find_twprge, tracts and warnings against Meaning(form, defaults)",
+        text="TLC enumerates every readable written form x default directions x source (config text, parse keyword, "
+             "MasterConfig, unset) x ocr_scrub and checks that an explicit direction is kept, a missing one is the default, and "
+             "the result equals that of the fully written form; each case (and pairs of Twp/Rges in one description, 40% of "
+             "them denoting the same Twp/Rge) is rendered with a random concrete spelling, OCR look-alikes substituted when "
+             "ocr_scrub is on, and parsed; TLC checks that the Twp/Rges read off the preprocessed text, find_twprge(..., "
+             "preprocess=True) and the tracts all equal the expected meaning in reading order, the preprocessed text holds no "
+             "Twp/Rge in another spelling, every form with a missing direction is named by a fixed_twprge warning on the "
+             "description and its tracts, and the tracts equal those of the fully written text.",
+        note="Trusted: spelling templates in harness/drivers/c08.py. Documented exceptions excluded: range 2 without the R "
+             "word; OCR needs the T word, both directions and a range other than a lone 2; a missing direction needs the T "
+             "and R words.",
+        design_ref="§5.5, §6 C08"),
 }
 
 NOT_APPLICABLE = {
